@@ -58,19 +58,6 @@ func LS1() any { type L struct{ x int }; return L{1} }
 func LS2() any { type L struct{ x int }; return L{1} }
 func GL[T any]() any { type L struct{ t T }; return L{} }
 
-type Namer struct{}
-
-func (Namer) Name() string { return "namer" }
-
-// unnamed structs around a type that is local to a generic function: embedded vs named field of the same type
-func GEmb[T any]() (any, any) {
-	type Rec struct {
-		Namer
-		v T
-	}
-	return struct{ Rec }{}, struct{ Rec Rec }{}
-}
-
 %s
 '''
 
@@ -98,7 +85,7 @@ def gen_identity():
 		emit("local/generic-same-inst", btoa(q.GL[int]() == q.GL[int]())+btoa(reflect.TypeOf(q.GL[int]()) == reflect.TypeOf(q.GL[int]())))
 		emit("local/generic-two-inst", btoa(reflect.TypeOf(q.GL[int]()) == reflect.TypeOf(q.GL[string]()))+btoa(reflect.TypeOf(q.GL[int]()) == reflect.TypeOf(q.GL[q.N]())))
 		emit("local/generic-inst-from-main-type", btoa(reflect.TypeOf(q.GL[N]()) == reflect.TypeOf(q.GL[q.N]()))+btoa(reflect.TypeOf(q.GL[N]()) == reflect.TypeOf(q.GL[N]())))
-		for _, pair := range [][2]any{pairOf(q.GEmb[int]()), pairOf(q.GEmb[string]())} {
+		for _, pair := range [][2]any{pairOf(GEmb[int]()), pairOf(GEmb[string]())} {
 			_, n0 := pair[0].(interface{ Name() string })
 			_, n1 := pair[1].(interface{ Name() string })
 			emit("local/generic-embedded-vs-named", btoa(reflect.TypeOf(pair[0]) == reflect.TypeOf(pair[1]))+btoa(pair[0] == pair[1])+btoa(n0)+btoa(n1)+itoa(int64(reflect.TypeOf(pair[0]).NumMethod()))+itoa(int64(reflect.TypeOf(pair[1]).NumMethod()))+itoa(int64(len(map[any]int{pair[0]: 1, pair[1]: 2}))))
@@ -109,6 +96,20 @@ def gen_identity():
     src = PRELUDE.replace('import (\n\t"os"\n\t"unsafe"\n)', 'import (\n\t"os"\n\t"reflect"\n\t"unsafe"\n\t"vt/q"\n)')
     src += """
 func pairOf(a, b any) [2]any { return [2]any{a, b} }
+
+type Namer struct{}
+
+func (Namer) Name() string { return "namer" }
+
+// unnamed structs around a type that is local to a generic function: embedded vs named field of the same type
+// (kept in package main: instantiating such a function across packages does not link with llgo at the pinned commit)
+func GEmb[T any]() (any, any) {
+	type Rec struct {
+		Namer
+		v T
+	}
+	return struct{ Rec }{}, struct{ Rec Rec }{}
+}
 
 // == and map insertion panic for uncomparable dynamic types: that is an observation too ("P")
 func safeEq(a, b any) (res string) {
